@@ -375,7 +375,25 @@ def _excuse(nan, esc, dosh, selfn, lossy0, lossy1, topnat, state, what):
 
 
 # --------------------------------------------------------------------------- CLI chains
-def cli_chain(cli, prog, args):
+# functions that mention the session's `inputs` (by name, through #name, directly or inside a captured closure):
+# `inputs` is an ordinary captured binding, so such a function is closed after capture and must carry the values
+# it saw to a fresh program that has OTHER inputs (round 4, seed C05-7: `inputs` left as a bare name on emission;
+# no in-process session of this check had a non-empty inputs record)
+INPUTS_JSON = '{"rate": 2, "fees": [1, 10], "tag": "a\\"b", "cfg": {"deep": [null, -0.5]}}'
+INPUTS_PROGS = [
+    ("f = x => x * inputs.rate + inputs.fees[1]", ["1", "2.5"]),
+    ("f = x => [x, #rate, #fees, #tag, #cfg.deep, #missing]", ["0"]),
+    ("f = x => [x, inputs]", ["1"]),
+    ("g = y => y + inputs.rate\nf = x => g(x) * 2", ["1", "-3"]),
+    ("k = inputs.cfg\nf = x => [k.deep, inputs.cfg.deep, x]", ["7"]),
+    ("f = (x, inputs?) => [x, inputs]", ["1", "1, 2"]),
+    ("f = x => do {\n  r = #rate\n  return [r * x, keys(inputs)]\n}", ["3"]),
+    ("mk = a => (x => [a, x, inputs.tag])\nf = mk(#fees)", ["1"]),
+    ("f = x => map(inputs.fees, e => e * x + #rate)", ["2"]),
+]
+
+
+def cli_chain(cli, prog, args, inputs_json=None):
     """blots prog1 (outputs f and r_i = f(args_i)) | blots prog2 (r_i = inputs.f(args_i)) -> (r1 dict, r2 dict)"""
     with tempfile.TemporaryDirectory(prefix="c05cli") as td:
         p1 = os.path.join(td, "p1.blots")
@@ -387,7 +405,8 @@ def cli_chain(cli, prog, args):
             f.write("\n".join(lines + ["output r%d = f(%s)" % (i, a) for i, a in enumerate(args)]) + "\n")
         with open(p2, "w") as f:
             f.write("\n".join(["output r%d = inputs.f(%s)" % (i, a) for i, a in enumerate(args)] + ["output f = inputs.f"]) + "\n")
-        r1 = subprocess.run([cli, p1], stdin=subprocess.DEVNULL, capture_output=True, text=True, timeout=60)
+        r1 = subprocess.run([cli] + (["-i", inputs_json] if inputs_json else []) + [p1], stdin=subprocess.DEVNULL,
+                            capture_output=True, text=True, timeout=60)
         if r1.returncode != 0:
             return None, None, "prog1 rc=%d" % r1.returncode
         try:
@@ -705,6 +724,25 @@ def main(argv):
         res.tie_broken("correspondence C05/EMIT-FULLBI: model (full dispatcher) and implementation disagree on %d calls" % len(fb_mism),
                        "first: %r args %r\nimpl : %s\nmodel: %s" % fb_mism[0])
     res.streams["EMIT-FULLBI"] = fb
+    # functions over a non-empty `inputs` record, through the real binary only (the fresh program's inputs are the
+    # first program's OUTPUTS, so a name left unresolved at emission reads something else there)
+    inp_ok = inp_f54 = 0
+    for prog, args in INPUTS_PROGS:
+        o1, o2, o3 = cli_chain(cli, prog, args, INPUTS_JSON)
+        good = isinstance(o1, dict) and isinstance(o2, dict) and isinstance(o3, dict) and all(
+            o1.get("r%d" % j) == o2.get("r%d" % j) == o3.get("r%d" % j) for j in range(len(args)))
+        if good:
+            inp_ok += 1
+        elif "#" in prog and "F54" in open_ids:
+            inp_f54 += 1          # open finding F54: an input reference #name is not resolved at emission
+        else:
+            res.violation("a function that mentions `inputs` does not carry the values it saw to a fresh program "
+                          "(blots -i INPUTS prog1 | blots prog2 | blots prog2)",
+                          {"kind": "cli-chain-inputs", "program": prog, "args": args, "inputs": INPUTS_JSON, "prog1": o1,
+                           "prog2": o2 if isinstance(o2, dict) else str(o2), "prog2_again": o3 if isinstance(o3, dict) else str(o3)})
+    stats["cli_inputs_chains"] = len(INPUTS_PROGS)
+    stats["cli_inputs_chains_ok"] = inp_ok
+    stats["cli_inputs_chains_in_known_class_F54"] = inp_f54
     res.streams["EMIT"] = dict(stats, repo_state=state, model_variant="nanfix=%s dofix=%s" % (nanfix, dofix),
                                pool=len(POOL), small_shapes=len(small_bodies()),
                                behaviour_model_agree=beh_agree, behaviour_model_skipped_unmodelled=beh_skip,
@@ -730,6 +768,9 @@ def main(argv):
     wid = {"F10": ["F10"], "F11": ["F11", "F11b"], "F15": ["F15"], "F50": ["F50"], "F8": ["F8"], "F12-F14": ["F12-F14"],
            "F51": ["F51"], "F53": ["F53"]}
     for e in c.open_known(PID):
+        if e["id"] == "F54":
+            res.known("%s %s%s" % (e["id"], e["what"], "" if inp_f54 else " (no longer reproduces)"))
+            continue
         rep_now = any(reproduces(h, w)[0] for w in wid.get(e["id"], []))
         res.known("%s %s%s" % (e["id"], e["what"], "" if rep_now else " (no longer reproduces)"))
     return res.finish()
